@@ -452,7 +452,7 @@ func sizeSweep(run *hx.Run, next func() int) {
 		timed(run, "expr", manyOpsCase(r, 5, next(), false), Exec)
 		// The rest is skipped in the statement-coverage measurement of bin/check, which replays the quick tier with an
 		// instrumented binary: the cases above execute the same statements.
-		if os.Getenv("GOCOVERDIR") != "" {
+		if os.Getenv("GOCOVERDIR") != "" && run.Budget <= 1 { // (with an enlarged budget — changed code — nothing is left out)
 			return
 		}
 		// the kernel-item dimension beyond 256 (ComputeLALR1Kernels indexes kernel items by their position in the state)
